@@ -431,6 +431,7 @@ class Out:
         self.fns = []  # contracted functions
         self.norm = {}  # normalisation counters
         self.dropped = []
+        self.hints_dropped = set()  # functions that lost a proof hint on this tree
 
     def emit(self, text, origin):
         for ln in text.split("\n"):
@@ -870,6 +871,12 @@ def assemble_fn_(spec, bundle, out, canary=False):
             ret = [c for c in cl if c[0] == "ret"]
             if len(ret) != 1:
                 raise ExtractError("%s: closure %d needs exactly one ret directive" % (where, n))
+            # $1, $2, ... in a closure clause stand for the closure's parameter names in the real code (a renamed
+            # parameter does not lose the annotation)
+            pnames = [re.sub(r"^\s*(?:mut\s+)?(\w+).*$", r"\1", q, flags=re.S) for q in src[bar + 1:after - 1].split(",")] if after - bar > 2 else []
+
+            def subst(t, pnames=pnames):
+                return re.sub(r"\$(\d)", lambda m: pnames[int(m.group(1)) - 1] if int(m.group(1)) <= len(pnames) else m.group(0), t)
             hdr = " -> (%s)" % ret[0][2].strip()
             for kind in ["requires", "ensures"]:
                 cs = [c for c in cl if c[0] == kind]
@@ -878,7 +885,7 @@ def assemble_fn_(spec, bundle, out, canary=False):
                 parts = []
                 for idx, c in enumerate(cs, 1):
                     cid = add_clause(kind, c[1], c[2], c[3], idx, "closure%d." % n)
-                    parts.append(c[2])
+                    parts.append(subst(c[2]))
                 hdr += " %s %s" % (kind, ", ".join(parts))
             if is_block:
                 replaces.append((after, after, hdr + " "))
@@ -909,6 +916,7 @@ def assemble_fn_(spec, bundle, out, canary=False):
             # a proof hint is scaffolding: when its anchor line is gone the hint is dropped and the contract is checked
             # without it (it then verifies, or a named obligation fails); ghost bindings and contract anchors stay fatal
             out.dropped.append("%s: proof hint anchored at /%s/ dropped on this tree (anchor line not found)" % (where, rx))
+            out.hints_dropped.add(fnkey)
             out.clauses.pop(cid, None)
             continue
         if len(hits) != 1:
@@ -1137,6 +1145,10 @@ def assemble_region(spec, bundle, out, sf, it, canary):
             ret = [c for c in cl if c[0] == "ret"]
             if len(ret) != 1:
                 raise ExtractError("%s: closure %d needs exactly one ret directive" % (where, n))
+            pnames = [re.sub(r"^\s*(?:mut\s+)?(\w+).*$", r"\1", q, flags=re.S) for q in src[bar + 1:after - 1].split(",")] if after - bar > 2 else []
+
+            def subst(t, pnames=pnames):
+                return re.sub(r"\$(\d)", lambda m: pnames[int(m.group(1)) - 1] if int(m.group(1)) <= len(pnames) else m.group(0), t)
             hdr = " -> (%s)" % ret[0][2].strip()
             for kind in ["requires", "ensures"]:
                 cs = [c for c in cl if c[0] == kind]
@@ -1148,7 +1160,7 @@ def assemble_region(spec, bundle, out, sf, it, canary):
                     out.clauses[cid] = {"fn": fnkey, "kind": "closure%d.%s" % (n, kind), "idx": idx,
                                         "tags": sorted(set(c[1] or spec.tags)), "text": " ".join(c[2].split()),
                                         "file": spec.file, "tmpl_line": c[3]}
-                    parts.append(c[2])
+                    parts.append(subst(c[2]))
                 hdr += " %s %s" % (kind, ", ".join(parts))
             if is_block:
                 replaces.append((after, after, hdr + " "))
@@ -1176,6 +1188,7 @@ def assemble_region(spec, bundle, out, sf, it, canary):
             # a proof hint is scaffolding: when its anchor line is gone the hint is dropped and the contract is checked
             # without it (it then verifies, or a named obligation fails); ghost bindings and contract anchors stay fatal
             out.dropped.append("%s: proof hint anchored at /%s/ dropped on this tree (anchor line not found)" % (where, rx))
+            out.hints_dropped.add(fnkey)
             out.clauses.pop(cid, None)
             continue
         if len(hits) != 1:
@@ -1335,6 +1348,7 @@ def assemble(template_path, canary=False, force_salvage=None):
         sub.fns = out.fns
         sub.norm = out.norm
         sub.dropped = out.dropped
+        sub.hints_dropped = out.hints_dropped
         if node[0] == "text":
             sub.lines.append((node[2], node[1] if isinstance(node[1], tuple) else ("tmpl", node[1])))
         elif node[0] == "item":
@@ -1388,7 +1402,7 @@ def assemble(template_path, canary=False, force_salvage=None):
     return {
         "bundle": bundle, "text": text, "linemap": linemap, "clauses": out.clauses, "fns": out.fns,
         "normalisations": out.norm, "dropped": out.dropped, "meta": meta, "tag_regions": tag_regions,
-        "template": template_path, "salvaged": salvaged,
+        "template": template_path, "salvaged": salvaged, "hints_dropped": sorted(out.hints_dropped),
     }
 
 
